@@ -34,6 +34,7 @@ FINDINGS = {
     "F6": "fp:ibin:list:+:user:None",
     "F7": "fp:ibin:dict:|:str:ValueError",
     "F8": "fn:sub:dict[unhashable]",
+    "F12": "fp:del:dict:KeyError",
 }
 
 ADV_OPS = set(g.ADVERTISED)
@@ -63,7 +64,7 @@ def fixed_statements(data, tier, r):
         if full and both_builtin:
           add(("bin", x, n, y), (1, 1), False)
         if full:
-          add(("ibin", x, n, y), (0, 0), False)
+          add(("ibin", x, n, y))
       if full or both_builtin or r.random() < 0.5:
         add(("sub", x, y))
       if full and both_builtin:
@@ -71,6 +72,29 @@ def fixed_statements(data, tier, r):
         add(("sub", x, y), (1, 0), False)
     add(("neg", x))
     add(("call", x))
+    for u in (g.POS, g.INVERT, g.BOOL):
+      add(("un", x, u))
+    for y in range(nvals):
+      both_builtin = x < g.NB and y < g.NB
+      for k in range(len(g.CMPOPS)):
+        if full or (both_builtin and k == 0) or r.random() < (0.2 if both_builtin else 0.12):
+          add(("cmp", x, g.LT + k, y))
+      if full or both_builtin or r.random() < 0.3:
+        add(("in", x, y, (x + y) % 2))
+      for sn in (g.SETITEM, g.DELITEM):
+        if full or both_builtin or r.random() < 0.3:
+          add(("st", x, sn, y))
+      if full:
+        add(("in", x, y, 1 - (x + y) % 2))
+      for i in range(g.N_BIN):
+        has_iop = x < g.NB and (g.FIXED_NAMES[g.IOP0 + i] in data["rt_rows"][x] or
+                                g.FIXED_NAMES[g.IOP0 + i] in data["py_rows"][x])
+        if (not full) and ((both_builtin and has_iop) or r.random() < (0.03 if both_builtin else 0.07)):
+          add(("ibin", x, 2 * i, y))      # thorough: every ibin statement is added above
+    if not full and x in (1, 3, 8, 11):
+      # every in-place operator on a few builtin pairs, whatever the sampling (int, float, set with themselves; list with int)
+      for i in range(g.N_BIN):
+        add(("ibin", x, 2 * i, 1 if x == 8 else x))
     if x < g.NB:
       add(("neg", x), (1, 1), False)
       add(("call", x), (1, 1), False)
@@ -100,14 +124,31 @@ def random_statements(classes, r, n):
     z = r.random()
     x = r.choice(users) if r.random() < 0.8 else r.randrange(g.NB)
     y = r.choice(users) if r.random() < 0.6 else r.randrange(g.NB)
-    if z < 0.6:
+    if z < 0.33:
+      w = r.random()
+      if w < 0.45:
+        st = ("cmp", x, g.LT + r.randrange(6), y) if r.random() < 0.6 else ("cmp", y, g.LT + r.randrange(6), x)
+      elif w < 0.6:
+        st = ("in", y, x, r.randrange(2))
+      elif w < 0.7:
+        st = ("st", x, r.choice([g.SETITEM, g.DELITEM]), y)
+      else:
+        iops = [2 * (d - g.IOP0) for c in classes for d in c["dunders"] if g.IOP0 <= d < g.IOP0 + g.N_BIN]
+        op = r.choice(iops) if iops and r.random() < 0.6 else (r.choice(used) if used and r.random() < 0.6 else
+                                                              2 * r.randrange(g.N_BIN))
+        if op >= 2 * g.N_BIN:
+          op = 0
+        st = ("ibin", x, op, y) if r.random() < 0.7 else ("ibin", y, op, x)
+    elif z < 0.6:
       op = r.choice(used) if used and r.random() < 0.8 else 2 * r.randrange(g.N_BIN)
       if op == g.GETITEM:
         st = ("sub", x, y)
       else:
         st = ("bin", x, op, y) if r.random() < 0.7 else ("bin", y, op, x)
-    elif z < 0.68:
+    elif z < 0.64:
       st = ("sub", x, y)
+    elif z < 0.68:
+      st = ("un", x, r.choice([g.POS, g.INVERT, g.BOOL]))
     elif z < 0.74:
       st = ("neg", x)
     elif z < 0.8:
@@ -130,7 +171,7 @@ def coq_user_table(classes, mros, idx, side):
     for d in sorted(c["dunders"]):
       acc = c["dunders"][d]
       a = "acc_all" if (side == "py" or acc == "all") else f"(acc_only {g.coq_list(acc)})"
-      own.append(f"({d}, ({g.coq_bool(d in (g.NEG, g.CALL))}, {a}))")
+      own.append(f"({d}, ({g.coq_bool(d in g.NULLARY and (side == 'py' or acc == 'all'))}, {a}))")
     for a, k in c["cattrs"]:
       own.append(f"({idx[a]}, ({g.coq_bool(k == 'meth')}, acc_all))")
     inst = "None" if c["init"] is None else "(Some " + g.coq_list(idx[a] for a, _ in c["init"]) + ")"
@@ -152,10 +193,23 @@ def coq_stmt(st, idx):
     return f"SAttr {st[1]} {idx[st[2]]}"
   if k == "mcall":
     return f"SMcall {st[1]} {idx[st[2]]}"
+  if k == "cmp":
+    return f"SCmp {st[1]} {st[2]} {st[3]}"
+  if k == "in":
+    return f"SIn {st[1]} {st[2]}"
+  if k == "ibin":
+    return f"SIop {st[1]} {st[2]} {st[3]}"
+  if k == "un":
+    return f"SNot {st[1]}" if st[2] == g.BOOL else f"SUn {st[1]} {st[2]}"
+  if k == "st":
+    return f"SStore {st[1]} {st[2]} {st[3]}"
   raise ValueError(st)
 
 
-HEADER = ("From Coq Require Import List.\nFrom PV Require Import Ops.Model Generated.C14_Builtins.\n"
+NEW_KINDS = ("cmp", "in", "ibin", "un", "st")
+
+
+HEADER = ("From Coq Require Import List.\nFrom PV Require Import Ops.Model Generated.C14_Builtins Ops.Ext.\n"
           "Import ListNotations.\n")
 
 
@@ -171,12 +225,18 @@ def eval_models(modules, idx):
         files.append((f"c14_cases_{len(files)}", cur, cur_mods))
         cur, cur_n, cur_mods = [HEADER], 0, []
       k = len(cur_mods)
+      old = [j for j, s in enumerate(chunk) if s[0] not in NEW_KINDS]
+      new = [j for j, s in enumerate(chunk) if s[0] in NEW_KINDS]
       cur += [f"Definition upy{k} : table := " + coq_user_table(classes, mros, idx, "py") + ".",
               f"Definition urt{k} : table := " + coq_user_table(classes, mros, idx, "rt") + ".",
-              f"Definition sts{k} : list stmt := [" + "; ".join(coq_stmt(s, idx) for s in chunk) + "].",
+              f"Definition sts{k} : list stmt := [" + "; ".join(coq_stmt(chunk[j], idx) for j in old) + "].",
+              f"Definition stn{k} : list stmt2 := [" + "; ".join(coq_stmt(chunk[j], idx) for j in new) + "].",
               f"Eval vm_compute in (map (fun s => code (run_py (mk_table py_rows upy{k}) s)) sts{k}).",
-              f"Eval vm_compute in (map (fun s => code (run_c (mk_table rt_rows urt{k}) s)) sts{k})."]
-      cur_mods.append((mi, len(chunk)))
+              f"Eval vm_compute in (map (fun s => code (run_c (mk_table rt_rows urt{k}) s)) sts{k}).",
+              f"Eval vm_compute in (map (fun s => code (run_py2 (mk_table py_rows upy{k}) "
+              f"(native_of native_tbl c14_nb) s)) stn{k}).",
+              f"Eval vm_compute in (map (fun s => code (run_c2 (mk_table rt_rows urt{k}) (hard_of rt_hard) s)) stn{k})."]
+      cur_mods.append((mi, len(chunk), old, new))
       cur_n += len(chunk)
   if cur_mods:
     files.append((f"c14_cases_{len(files)}", cur, cur_mods))
@@ -187,14 +247,18 @@ def eval_models(modules, idx):
     if not ok:
       raise common.BuildError("model evaluation failed for %s:\n%s" % (n, txt[-1500:]))
     vals = common.parse_coq_eval(txt)
-    if len(vals) != 2 * len(mods):
+    if len(vals) != 4 * len(mods):
       raise common.BuildError("unexpected coqc output for %s: %s" % (n, txt[-500:]))
-    for k, (mi, cnt) in enumerate(mods):
+    for k, (mi, cnt, old, new) in enumerate(mods):
       for side in (0, 1):
-        got = [int(t) for t in re.findall(r"\d+", vals[2 * k + side])]
-        if len(got) != cnt:
-          raise common.BuildError("model printed %d results for %d statements in %s" % (len(got), cnt, n))
-        out[mi][side].extend(got)
+        merged = [None] * cnt
+        for part, pos in ((0, old), (2, new)):
+          got = [int(t) for t in re.findall(r"\d+", vals[4 * k + part + side])]
+          if len(got) != len(pos):
+            raise common.BuildError("model printed %d results for %d statements in %s" % (len(got), len(pos), n))
+          for j, v in zip(pos, got):
+            merged[j] = v
+        out[mi][side].extend(merged)
   return out
 
 
@@ -203,7 +267,9 @@ def decode(code):
     return ("Err",)
   if code == 1:
     return ("Union",)
-  return ("Ok", (code - 2) // 256, (code - 2) % 256)
+  if code == 2:
+    return ("Plain",)
+  return ("Ok", (code - 3) // 256, (code - 3) % 256)
 
 
 # ------------------------------------------------------------------------------------------
@@ -211,8 +277,8 @@ def decode(code):
 
 def expected_marker(classes, st, dec, names):
   """Marker class whose instance the statement evaluates to when a user definition answers (None: unobserved)."""
-  if dec[0] != "Ok" or dec[1] < g.NB or st[0] == "attr":
-    return None
+  if dec[0] != "Ok" or dec[1] < g.NB or st[0] in ("attr", "in", "st") or (st[0] == "un" and st[2] == g.BOOL):
+    return None          # `in` / `not` coerce the answer of the dunder to a bool
   ci = dec[1] - g.NB
   if st[0] == "mcall":
     a = names[dec[2]]
@@ -257,6 +323,17 @@ def fingerprint(classes, rec, direction, exc, msg=""):
     yc = cls_name(classes, st[3]) if st[3] < g.NB else "user"
     sym = g.BINOPS[st[2] // 2][0]
     core = f"{k}:{xc}.{g.FIXED_NAMES[st[2]]}" if direction == "fn" else f"{k}:{xc}:{sym}:{yc}"
+  elif k == "cmp":
+    yc = cls_name(classes, st[3]) if st[3] < g.NB else "user"
+    core = f"cmp:{xc}:{g.CMPOPS[st[2] - g.LT][0]}:{yc}"
+  elif k == "in":
+    qc = cls_name(classes, st[2]) if st[2] < g.NB else "user"
+    core = f"in:{xc}:{qc}"
+  elif k == "un":
+    core = f"un:{g.UNSYM[st[2]].strip()}:{xc}"
+  elif k == "st":
+    yc = cls_name(classes, st[3]) if st[3] < g.NB else "user"
+    core = f"{'set' if st[2] == g.SETITEM else 'del'}:{xc}" + (f"[{yc}]" if direction == "fn" else "")
   elif k == "sub":
     yc = cls_name(classes, st[2]) if st[2] < g.NB else "user"
     if msg.startswith("unhashable type"):
@@ -384,7 +461,11 @@ def translator_checks(res, data):
           "frozenset", "builtin_function_or_method"]
   res.obligation("translator:head-ids-match-model-constants", [h[0] for h in g.HEADS] == want and
                  g.FIXED_NAMES[28:30] == ["as_integer_ratio", "to_bytes"] and g.FIXED_NAMES[24:28] ==
-                 ["__getitem__", "__neg__", "__call__", "__init__"], "")
+                 ["__getitem__", "__neg__", "__call__", "__init__"] and g.FIXED_NAMES[30:37] ==
+                 ["__lt__", "__le__", "__gt__", "__ge__", "__eq__", "__ne__", "__contains__"] and
+                 g.FIXED_NAMES[37:49] == ["__i%s__" % n for _, n in g.BINOPS] and g.FIXED_NAMES[49:] ==
+                 ["__pos__", "__invert__", "__bool__", "__len__", "__iter__", "__setitem__", "__delitem__"] and
+                 g.NEW_END == 56, "")
   diff = [(g.HEADS[i][0], n) for t in ("py_rows", "rt_rows") for i in range(g.NB)
           for n, e in data[t][i].items() if e["accP"] != e["accF"]]
   res.extra["builtin_dunders_accepting_user_classes_structurally"] = sorted(set(diff))[:20]
@@ -410,10 +491,13 @@ Eval vm_compute in (flat_map (fun x => flat_map (fun y => flat_map (fun n =>
 
 
 def run(res):
-  res.rule = ("ground statements `v = (x) op (y)`, `(x)[y]`, `-(x)`, `(x)()`, `(x).name`, `(x).name()` (thorough: "
-              "also `v = x; v op= y` and a second literal per builtin head) with x, y over 14 builtin value heads "
+  res.rule = ("ground statements `v = (x) op (y)`, `(x)[y]`, `-(x)`, `(x)()`, `(x).name`, `(x).name()`, and (C14x) "
+              "`(x) < <= > >= == != (y)`, `(x) in / not in (y)`, `v = x; v op= y`, `+(x)`, `~(x)`, `not (x)`, `x[y] = 1`, "
+              "`del x[y]` (thorough: "
+              "also a second literal per builtin head) with x, y over 14 builtin value heads "
               "(object() int bool float complex str bytes None list tuple dict set frozenset len) and user classes "
-              "(6 fixed: with/without __add__ __radd__ __getitem__ __call__ __neg__, inherited, NotImplemented-"
+              "(10 fixed: with/without __add__ __radd__ __getitem__ __call__ __neg__ __lt__ __gt__ __eq__ __contains__ "
+              "__iter__ __iadd__ __pos__ __invert__ __bool__ __len__, inherited, NotImplemented-"
               "returning; plus random class tables: random C3-consistent multiple inheritance, random dunder "
               "subsets, class/instance attributes), 12 binary operators; 100 statements per analysed module, one "
               "per line. Non-trivial: pytype flags it, or CPython raises TypeError/AttributeError, or a user class "
@@ -422,7 +506,11 @@ def run(res):
       "class-level abstraction: one literal per builtin head in the model; acceptance of a user-class argument by a "
       "builtin dunder is uniform over user classes (probed with an empty and a full class)",
       "CPython's binary_op1/slot wrappers modelled at data-model level and validated against the running interpreter",
-      "not modelled (oracle only): in-place operators, literal variants; not covered: overload choice/return types, "
+      "compare.cmp_rel (native comparison of primitive constants / constant tuples) is observed on the real VM through "
+      "a wrapper installed in the worker process and regenerated as a table; whether a rejecting builtin in-place "
+      "dunder ends the operation (rt_hard) is observed by executing `v op= RF_()` under CPython",
+      "item assignment is modelled with an int literal as the stored value (the value's class is not a dimension)",
+      "not modelled (oracle only): literal variants; not covered: overload choice/return types, "
       "__getattr__/descriptors, dunders assigned on instances, user classes deriving from builtins, explicit access to "
       "underscore attributes of builtins",
       "generators, runners and differ in harness/props/c14.py, c14_gen.py",
